@@ -576,7 +576,12 @@ class SVG:
 
                 group.append(new_el)
 
-                if _try_remove_group(group, push_opacity=False):
+                # a clip-path on the use acts in the user space of the use: folding the
+                # group into a target with its own transform or clip-path would move it
+                keep_group = "clip-path" in group.attrib and (
+                    "transform" in new_el.attrib or "clip-path" in new_el.attrib
+                )
+                if not keep_group and _try_remove_group(group, push_opacity=False):
                     _inherit_attrib(group.attrib, new_el)
                     swaps.append((use_el, new_el))
                 else:
